@@ -175,7 +175,10 @@ def classify(ty, x):
                     j_parse = j
                     break
             if j_parse is not None and j_true is not None and j_parse < j_true:
-                return 'untagged-union-reparse-ambiguity'
+                # only when the union wrote exactly what x's own member writes: the ambiguity is then inherent in the data
+                own = observe(env.into_data, x, members[j_true])
+                if own.kind == 'value' and deep_typed_eq(own.val, d.val)[0]:
+                    return 'untagged-union-reparse-ambiguity'
     if ty.k == 'union':
         for m in ty.a:
             wrapped = [n for n in _nodes(m) if n.k == 'tagged' and n.x['external'] is not False]
